@@ -132,6 +132,20 @@ def inject(cat, dst, scratch, modules, extra_tests=None):
         tgt = os.path.join(cdir, os.path.basename(info["file"]))
         text = open(src).read()
         text = text.replace("@GENERATED@", gen)
+        # harnesses instantiated from the catalogue (generic contract fn + concrete shape)
+        gen_h = []
+        for u in cat.UNITS:
+            if u.get("module") == m and u.get("call"):
+                attrs = "#[kani::proof]\n"
+                if u.get("unwind"):
+                    attrs += "#[kani::unwind(%d)]\n" % u["unwind"]
+                if u.get("solver"):
+                    attrs += "#[kani::solver(%s)]\n" % u["solver"]
+                for st in u.get("stubs", []):
+                    attrs += "#[kani::stub(%s, %s)]\n" % (st[0], st[1])
+                gen_h.append("%sfn %s() {\n    %s;\n}\n" % (attrs, u["harness"], u["call"]))
+        if gen_h:
+            text += "\n// ---- harnesses instantiated from contracts/catalogue.py ----\n" + "\n".join(gen_h)
         if extra_tests and m in extra_tests:
             text += "\n" + extra_tests[m] + "\n"
         open(tgt, "w").write(text)
